@@ -138,6 +138,19 @@ pub fn generate(verif_seed: u64, idx: u64, property: &str, thorough: bool) -> Sc
         scn.behaviour.retain(|b| !(b.task == victim && b.call == call));
         let susp = if rng.chance(1, 2) { vec![Susp::SelfWake] } else { vec![] };
         scn.behaviour.push(Beh { task: victim, call, susp, panic: true });
+    } else if how < 9 {
+        // the victim hangs for good in one of its first calls (no cancellation): hung I/O in one
+        // evaluation must not keep the others from finishing
+        let call = rng.below(3) as u32;
+        scn.behaviour.retain(|b| !(b.task == victim && b.call == call));
+        scn.behaviour.push(Beh { task: victim, call, susp: vec![Susp::Forever], panic: false });
+        // nothing may be made to wait for the hung one
+        for t in scn.tasks.iter_mut() {
+            if t.start == Start::AfterEnd(victim) {
+                t.start = Start::Now;
+            }
+        }
+        abandoned = false;
     } else {
         abandoned = false;
     }
@@ -358,6 +371,12 @@ pub fn judge(scn: &Scenario, out: &RunOut, c: &mut Counters) -> Verdict {
                 }
             }
             TaskEnd::NotStarted => {}
+            TaskEnd::Unfinished(why) if why == "hung by plan" => {
+                // parked in a call that never completes; everybody else had to finish regardless
+                any_abandoned = true;
+                c.bump("hit.evaluation_hung_in_a_call_while_others_finished");
+                sig = combine(sig, 0xF0 + t as u64);
+            }
             TaskEnd::Unfinished(why) => return Verdict::harness(format!("task {t} unfinished: {why}")),
         }
     }
